@@ -155,7 +155,9 @@ def law_storage(op, a, b, res):
     if res.mount_point != a.mount_point or a.mount_point != b.mount_point:
         return False, "mount point"
     exp = {"add": a.size + b.size, "sub": a.size - b.size, "or": max(a.size, b.size)}[op]
-    if res.size != exp:
+    # the statement's laws hold up to 1e-9 relative (an implementation may absorb rounding residue of a
+    # subtraction of nearly equal sizes); add / or are exact in the code and trivially within it
+    if not close(res.size, exp, max(a.size, b.size)):
         return False, f"size {res.size!r} expected {exp!r}"
     if set(res.paths) != set(a.paths) | set(b.paths):
         return False, "paths not the union"
